@@ -278,7 +278,24 @@ def gen_shared(rng, idx):
 def gen_net(rng, idx, profile):
     import netgen
 
+    if profile == "ranks":
+        # every accelerated operator kind on ranks 1-4 (5-6 rarely), positive and negative axis attributes (harness/gen_ranksweep.py)
+        import gen_ranksweep
+
+        return gen_ranksweep.c01_net(rng, idx, make_builder)
+    if profile == "ssmask":
+        # STRIDED_SLICE mask algebra on ranks 1-4 (harness/gen_ssmask.py)
+        import gen_ssmask
+
+        return gen_ssmask.c01_net(rng, idx, make_builder)
     if profile == "shared":
+        if (idx // len(PROFILES)) % 2 == 1:
+            # every other network of the profile: the shared-filter families of harness/netgen_shared.py (one per weight re-laying
+            # rewrite, users differing in the parameter the rewrite reads), the axes in turn
+            import netgen_shared
+
+            ax = netgen_shared.AXES[(idx // (2 * len(PROFILES))) % len(netgen_shared.AXES)]
+            return netgen_shared.build(rng, idx, ax, small=True, make_b=make_builder, name=f"c01_shared_{idx}")
         return gen_shared(rng, idx)
     if profile == "softmax":
         return gen_softmax(rng, idx)
@@ -616,6 +633,53 @@ def corpus_net(rng, name):
             y = b.pool(x, "AVERAGE_POOL_2D", (2, 2), (1, 4), "VALID")
             z = b.reshape(y, [1, 84])
         return b.finish([z])
+    if name == "known_sqdiff_broadcast_first":
+        # round 5 (rank sweep): SQUARED_DIFFERENCE whose first operand is the broadcast one (patch C01-48)
+        b = make_builder(rng, name, "int8")
+        x = b.input([1, 6, 3, 5], scale=0.05, zp=3)
+        y = b.input([5], scale=0.04, zp=-2)
+        o = b.fm([1, 6, 3, 5], "int8", scale=0.2, zp=-100)
+        b.net.ops.append(netgen.Op("SQUARED_DIFFERENCE", [y, x], [o], ("SquaredDifferenceOptions", {})))
+        return b.finish([o])
+    if name == "known_fc_keep_dims_batch":
+        # round 5 (rank sweep): FULLY_CONNECTED with keep_num_dims and a rank 4 result whose first dimension is 2 (patch C01-47)
+        b = make_builder(rng, name, "int8")
+        x = b.input([2, 2, 2, 8], scale=0.05, zp=3)
+        wt = b.const([8, 8], "int8", b.rand_weights([8, 8], "int8", "uniform"), [0.01], [0], 0, "w")
+        bt = b.const([8], "int32", list(range(8)), [0.0005], [0], 0, "b")
+        o = b.fm([2, 2, 2, 8], "int8", scale=0.1, zp=-3)
+        b.net.ops.append(netgen.Op("FULLY_CONNECTED", [x, wt, bt], [o], ("FullyConnectedOptions", dict(FusedActivationFunction=0, KeepNumDims=True))))
+        return b.finish([b.unary("RELU", o)])
+    if name in ("known_unpack_negative_axis", "known_slice_size_minus1", "known_transpose_rank2_identity", "known_slice_end_clamped"):
+        # round 5 (rank sweep / STRIDED_SLICE mask algebra): deterministic witnesses of C13-50, C13-51, C01-46, C01-45
+        b = make_builder(rng, name, "int8")
+        if name == "known_unpack_negative_axis":
+            x = b.input([3, 2, 4], scale=0.05, zp=3)
+            parts = [b.fm([3, 4], "int8", scale=0.05, zp=3) for _ in range(2)]
+            b.net.ops.append(netgen.Op("UNPACK", [x], parts, ("UnpackOptions", dict(Num=2, Axis=-2))))
+            return b.finish([b.unary("RELU", parts[0]), b.unary("RELU", parts[1])])
+        if name == "known_slice_size_minus1":
+            x = b.input([4, 8, 4], scale=0.05, zp=3)
+            bt = b.const([3], "int32", [0, 7, 0], name=b.fresh("begin"))
+            st = b.const([3], "int32", [-1, 1, 4], name=b.fresh("size"))
+            y = b.fm([4, 1, 4], "int8", scale=0.05, zp=3)
+            b.net.ops.append(netgen.Op("SLICE", [x, bt, st], [y], ("SliceOptions", {})))
+            return b.finish([b.unary("RELU", y)])
+        if name == "known_transpose_rank2_identity":
+            x = b.input([6, 3], scale=0.05, zp=3)
+            r = b.unary("RELU", x)
+            pt = b.const([2], "int32", [0, 1], name=b.fresh("perm"))
+            t_ = b.fm([6, 3], "int8", scale=0.05, zp=3)
+            b.net.ops.append(netgen.Op("TRANSPOSE", [r, pt], [t_], ("TransposeOptions", {})))
+            return b.finish([b.unary("RELU6", t_)])
+        x = b.input([3, 4], scale=0.05, zp=3)
+        bt = b.const([2], "int32", [1, -3], name=b.fresh("begin"))
+        et = b.const([2], "int32", [3, 11], name=b.fresh("end"))
+        st = b.const([2], "int32", [1, 1], name=b.fresh("strides"))
+        y = b.fm([2, 3], "int8", scale=0.05, zp=3)
+        b.net.ops.append(netgen.Op("STRIDED_SLICE", [b.unary("RELU", x), bt, et, st], [y], ("StridedSliceOptions", dict(
+            BeginMask=0, EndMask=0, EllipsisMask=0, NewAxisMask=0, ShrinkAxisMask=0))))
+        return b.finish([b.unary("RELU", y)])
     if name == "known_sigmoid_relu6":
         # int16 LOGISTIC -> RELU6: both are packed into one pass (one average pool), the command generator keeps the last activation
         b = make_builder(rng, name, "int16")
@@ -679,6 +743,24 @@ def corpus_net(rng, name):
             b.net.ops.append(netgen.Op("TRANSPOSE_CONV", [os_, f.inputs[1], x, f.inputs[2]], [y1], ("TransposeConvOptions", dict(
                 Padding=0, StrideW=2, StrideH=2))))
         return b.finish([y0, y1])
+    if name == "known_shared_fold_same_valid":
+        # regression network of the class of seeded change C08-r5m2 (nothing known about the unchanged compiler): two CONV_2D
+        # with stride width 4 on ONE 1x9 filter and bias, SAME (pad_left 2) and VALID; both are folded by 4 to a 1x3 kernel over
+        # 12 channels, the SAME one with two zero columns in front. Their clones must not share an encoded weight stream.
+        import netgen_shared
+
+        return netgen_shared.build(rng, 0, "stride_ge4_same_vs_valid", n_ops=2, dtype="int8", per_channel=False, small=True,
+                                   make_b=make_builder, name=name, kernel=(1, 9), stride_w=4, ic=3, oc=4, hw=(3, 16))
+    if name in ("known_tconv_stride1_same_even", "known_tconv_stride1_valid", "known_pad_folded_conv"):
+        b = make_builder(rng, name, "int8")
+        if name == "known_pad_folded_conv":
+            # padded width 16, stride width 6: folded by 2 (final stride 3, kernel 2x8 -> 2x4); pads <= half of the folded kernel
+            x = b.input([1, 4, 12, 1], scale=0.05, zp=3)
+            return b.finish([b.conv(b.pad(x, [[0, 0], [1, 0], [2, 2], [0, 0]]), 4, (2, 8), (1, 6), (1, 1), "VALID", act=0, per_channel=False)])
+        x = b.input([1, 4, 5, 1], scale=0.05, zp=3)
+        if name == "known_tconv_stride1_same_even":
+            return b.finish([b.transpose_conv(x, 4, (2, 2), (1, 1), "SAME")])
+        return b.finish([b.transpose_conv(x, 4, (3, 3), (1, 1), "VALID")])
     if name == "known_concat_batch_axis":
         b = make_builder(rng, name, "int8")
         x = b.input([1, 3, 3, 5], scale=0.05, zp=3)
@@ -863,6 +945,8 @@ def _worker(job):
                    src_pads={i: np.asarray(t.data).reshape(-1, 2).tolist() for i, t in enumerate(net.tensors)
                              if t.data is not None and t.dtype == "int32" and np.asarray(t.data).size in (6, 8)},
                    src_outputs=list(net.outputs),
+                   src_opts=[{k: (v if isinstance(v, (int, float, bool, str)) else list(v)) for k, v in (o.opts[1] if o.opts else {}).items()}
+                             for o in net.ops],
                    src_dil=[max(int((o.opts[1] if o.opts else {}).get("DilationWFactor", 1)), int((o.opts[1] if o.opts else {}).get("DilationHFactor", 1)))
                             for o in net.ops],
                    src_tinfo=[(list(t.shape), t.dtype, [float(x) for x in (t.scales or [])], [int(z) for z in (t.zps or [])],
@@ -1046,9 +1130,63 @@ def wide_stride_avgpool(o):
                for kind, ins, outs, faf, pad, stride in o.get("src_graph") or [])
 
 
+def tconv_stride1_outputs(o):
+    """outputs of the TRANSPOSE_CONV operators with stride 1x1 whose padding is not that of a convolution with the same
+    attributes: VALID with a kernel above 1x1, SAME with an even kernel height or width"""
+    ti, strides, res = o.get("src_tinfo") or [], o.get("src_strides") or [], set()
+    for n_op, (kind, ins, outs, faf, pad, stride) in enumerate(o.get("src_graph") or []):
+        if kind == "TRANSPOSE_CONV" and n_op < len(strides) and tuple(strides[n_op]) == (1, 1) and len(ti[ins[1]][0]) == 4:
+            kh, kw = ti[ins[1]][0][1:3]
+            if (pad == 1 and (kh > 1 or kw > 1)) or (pad == 0 and (kh % 2 == 0 or kw % 2 == 0)):
+                res.add(outs[0])
+    return res
+
+
 def _classify_candidate(o, ans, skip):
     """first key, not in `skip`, whose structural condition the source network meets (see classify_failure)"""
     g = o.get("src_graph") or []
+    if ans.endswith("verdict=fail") or ans.startswith("err:out:"):
+        # rank sweep (harness/gen_ranksweep.py): three lowerings that mishandle a legal attribute value (repairs pending)
+        ti, sopts = o.get("src_tinfo") or [], o.get("src_opts") or []
+        for n_op, (kind, ins, outs, faf, pad, stride) in enumerate(g):
+            if kind == "UNPACK" and n_op < len(sopts) and int(sopts[n_op].get("Axis", 0)) < 0:
+                if "unpack-negative-axis-converted-with-the-rule-of-pack" not in skip:
+                    return "unpack-negative-axis-converted-with-the-rule-of-pack"
+            if kind == "SLICE" and len(ins) > 2 and ins[2] < len(ti) and ti[ins[2]][4] is not None and -1 in ti[ins[2]][4]:
+                if "slice-size-minus-one-not-resolved" not in skip:
+                    return "slice-size-minus-one-not-resolved"
+            if kind == "SQUARED_DIFFERENCE" and ins[0] < len(ti) and outs[0] < len(ti) and list(ti[ins[0]][0]) != list(ti[outs[0]][0]):
+                if "squared-difference-first-operand-broadcast" not in skip:
+                    return "squared-difference-first-operand-broadcast"
+            if kind == "FULLY_CONNECTED" and n_op < len(sopts) and sopts[n_op].get("KeepNumDims") and outs[0] < len(ti) and \
+                    len(ti[outs[0]][0]) == 4 and ti[outs[0]][0][0] > 1:
+                if "fc-keep-num-dims-rank4-result-rows-not-written" not in skip:
+                    return "fc-keep-num-dims-rank4-result-rows-not-written"
+            if kind == "TRANSPOSE" and len(ins) > 1 and ins[0] < len(ti) and len(ti[ins[0]][0]) == 2 and ins[1] < len(ti) and ti[ins[1]][4] == [0, 1]:
+                if "transpose-rank2-identity-executed-as-transposition" not in skip:
+                    return "transpose-rank2-identity-executed-as-transposition"
+    if ans.endswith("verdict=fail") or ans.startswith("err:out:"):
+        # STRIDED_SLICE begin below -dim / end above dim: the reference clamps, constraint_slice_ranges does not (patch C01-45)
+        import gen_ssmask
+
+        if gen_ssmask.out_of_range((o.get("desc") or {}).get("desc")):
+            if "strided-slice-out-of-range-begin-end-not-clamped" not in skip:
+                return "strided-slice-out-of-range-begin-end-not-clamped"
+    if ans.endswith("verdict=fail"):
+        # TRANSPOSE_CONV with stride 1x1: every output that differs is the output of such an operator
+        t1 = tconv_stride1_outputs(o)
+        failing = {int(t) for t, nbad in re.findall(r"\| t(\d+) cls=\d maxdiff=\d+ bad=(\d+)", ans) if int(nbad) > 0}
+        if t1 and failing and failing <= t1:
+            if "transpose-conv-stride-1-padded-like-a-convolution" not in skip:
+                return "transpose-conv-stride-1-padded-like-a-convolution"
+    if "weights_do_not_fit_the_IFM_depth" in ans:
+        # PAD -> VALID CONV_2D with a stride width above 3: the PAD is replaced by hardware padding after the width was folded
+        strides = o.get("src_strides") or []
+        prod = {outs[0]: kind for kind, ins, outs, faf, pad, stride in g}
+        for n_op, (kind, ins, outs, faf, pad, stride) in enumerate(g):
+            if kind == "CONV_2D" and pad == 1 and n_op < len(strides) and strides[n_op][1] >= 4 and prod.get(ins[0]) == "PAD":
+                if "pad-before-folded-strided-conv-replaced-by-hardware-padding" not in skip:
+                    return "pad-before-folded-strided-conv-replaced-by-hardware-padding"
     if "weights_do_not_fit_the_IFM_depth" in ans:
         # AVERAGE_POOL_2D with a width stride >= 4 lowered to a convolution with one input channel
         shapes, strides = o.get("src_shapes") or [], o.get("src_strides") or []
@@ -1167,6 +1305,9 @@ def classify_failure(o, ans):
     global _OPEN_KEYS
     if _OPEN_KEYS is None:
         _OPEN_KEYS = {k["key"] for k in common.load_known_findings() if k["property"] == "C01"}
+        import pending
+
+        _OPEN_KEYS |= set(pending.pending_keys("C01"))      # repairs written but not yet in the tree under test
     skip, first = set(), None
     for _ in range(64):         # every round adds a new key to `skip`; there are fewer than 64 keys
         k = _classify_candidate(o, ans, skip)
@@ -1201,7 +1342,7 @@ def replay(ck, path):
 def main():
     ck = Check("C01", "translation_validation")
     ck.lean_stage(["VelaVerif.Props.C01", "VelaVerif.Props.C01Rewrites", "VelaVerif.Props.C01Wide", "VelaVerif.Props.C01Packing",
-                   "VelaVerif.Props.C01Slice"])
+                   "VelaVerif.Props.C01Slice", "VelaVerif.Props.C01StridedSlice"])
     if ck.replay_arg:
         replay(ck, ck.replay_arg)
     import pipeline
@@ -1214,6 +1355,12 @@ def main():
     t0 = time.time()
     rw = c01_rewrites.run(ck)
     ck.count("seconds_rewrite_streams", round(time.time() - t0))
+    # STRIDED_SLICE specification streams (Spec/StridedSliceRef.lean vs NumPy; the real constraint_slice_ranges vs the Spec)
+    import c01_ssmask
+    import pending
+
+    pending.register(ck)          # repairs written but not yet in the tree under test (harness/pending.py)
+    ss_stats = c01_ssmask.run(ck, 12000 if ck.thorough else 2000, 12000 if ck.thorough else 2000)
     # pass packing: the model of pack_into_passes (Model/PassPacking.lean) against the real function on generated graphs; the
     # subgraphs of the networks compiled below are judged after the compile stage
     import c01_packing
@@ -1232,7 +1379,13 @@ def main():
                                                               "mean_unit_axes", "concat_batch_axis",
                                                               "resize_reshape", "mean_reshape", "widepool_reshape",
                                                               "transpose_relu", "sqdiff_reshape", "dilation3_uint8", "shared_dilation3", "shared_tconv",
-                                                              "prelu_reshape", "transpose_lut_mul", "protected_reshape_inplace", "sigmoid_relu6")]
+                                                              "prelu_reshape", "transpose_lut_mul", "protected_reshape_inplace",
+                                                              "sigmoid_relu6",
+                                                              "tconv_stride1_same_even", "tconv_stride1_valid", "pad_folded_conv", "shared_fold_same_valid",
+                                                              "unpack_negative_axis", "slice_size_minus1", "transpose_rank2_identity", "slice_end_clamped", "fc_keep_dims_batch", "sqdiff_broadcast_first")]
+    # round-5 families first (so that the wall-clock budget of the quick tier never cuts them)
+    jobs += [(ck.seed, i, "ssmask", k_inputs) for i in range(2400 if ck.thorough else 300)]
+    jobs += [(ck.seed, i, "ranks", k_inputs) for i in range(3024 if ck.thorough else 378)]      # 21 kinds x 6 x 3 axis variants
     jobs += [(ck.seed, i, PROFILES[i % len(PROFILES)], k_inputs) for i in range(n)]
     ctx = multiprocessing.get_context("fork")
     t0 = time.time()
@@ -1340,6 +1493,7 @@ def main():
         "packing_distinct": len(pk.nontrivial),
         "rewrite_stream_evaluations": rw.evaluations,
         "rewrite_stream_distinct": len(rw.nontrivial),
+        **ss_stats,
         "inputs_per_network": k_inputs,
         "rule": "evaluation = one (generated network, sampled configuration) compiled by the real compiler; judged = both "
                 "models executed by Lean on every input set; non-trivial = at least one NPU operation was executed by the "
